@@ -171,6 +171,33 @@ pub fn depth1() -> Vec<Ty> {
             }
         }
     }
+    // higher arities (the enumeration above stops at 2 parameters / 3 components): a fixed sample
+    let (i, st, f, b) = (Ty::Int, Ty::Str, Ty::Float, Ty::Bool);
+    let f3 = Ty::Fun(vec![i.clone(), st.clone(), f.clone()], Box::new(b.clone()));
+    let wide = vec![
+        f3.clone(),
+        Ty::Fun(vec![i.clone(), i.clone(), i.clone()], Box::new(i.clone())),
+        Ty::Fun(vec![Ty::Any, i.clone(), st.clone(), f.clone()], Box::new(Ty::Void)),
+        Ty::Fun(vec![Ty::Arr(Box::new(i.clone())), Ty::Tup(vec![i.clone(), st.clone()]), Ty::Fun(vec![], Box::new(i.clone()))], Box::new(Ty::Union(vec![i.clone(), st.clone()]))),
+        Ty::Fun(vec![f3.clone()], Box::new(Ty::Fun(vec![st.clone(), st.clone(), st.clone()], Box::new(st.clone())))),
+        Ty::Tup(vec![i.clone(), st.clone(), f.clone(), b.clone()]),
+        Ty::Tup(vec![i.clone(), st.clone(), f.clone(), b.clone(), Ty::Void]),
+        Ty::Tup(vec![Ty::Tup(vec![i.clone(), i.clone(), i.clone()]), i.clone(), Ty::Tup(vec![st.clone(), st.clone()])]),
+        Ty::Struct(vec![("a".into(), i.clone()), ("b".into(), st.clone()), ("c".into(), f.clone()), ("d".into(), b.clone())]),
+        Ty::Struct(vec![("a".into(), f3.clone()), ("b".into(), Ty::Union(vec![i.clone(), st.clone()])), ("c".into(), Ty::Mut(Box::new(i.clone()))), ("d".into(), Ty::Arr(Box::new(st.clone()))), ("e".into(), Ty::Void)]),
+        Ty::Union(vec![i.clone(), st.clone(), f.clone(), b.clone()]),
+        Ty::Union(vec![i.clone(), st.clone(), f.clone(), b.clone(), Ty::Arr(Box::new(i.clone()))]),
+        Ty::Mut(Box::new(f3.clone())),
+        Ty::Arr(Box::new(f3.clone())),
+        Ty::Union(vec![f3.clone(), i.clone()]),
+        Ty::Struct(vec![]),
+        Ty::Arr(Box::new(Ty::Struct(vec![]))),
+        Ty::Fun(vec![Ty::Struct(vec![])], Box::new(Ty::Struct(vec![]))),
+        Ty::Union(vec![Ty::Struct(vec![]), i.clone()]),
+    ];
+    for w in wide {
+        out.insert(w);
+    }
     out.into_iter().collect()
 }
 
